@@ -2027,6 +2027,30 @@ def convert_pad_to_concat(op, arch, nng):
     quantization = inp.quantization
     left_size, right_size = pad_tensor.values[axis, :]
 
+    other_pads = pad_tensor.values.copy()
+    other_pads[axis, :] = 0
+    if other_pads.any():
+        # The PAD also pads other dimensions (height/width): a concatenation along `axis` alone would drop that padding.
+        # Pad `axis` first with a PAD of its own (converted to a concatenation when it is visited) and keep this operator
+        # as a PAD of the remaining dimensions
+        sub_shape = inp.shape.copy()
+        sub_shape[axis] += int(left_size) + int(right_size)
+        sub_out = Tensor(sub_shape, dtype, f"{op.outputs[0].name}_sub")
+        sub_out.quantization = op.outputs[0].quantization
+        sub_values = np.zeros_like(pad_tensor.values)
+        sub_values[axis, :] = pad_tensor.values[axis, :]
+        sub_pad_tensor = create_const_tensor(
+            f"{pad_tensor.name}_sub", list(pad_tensor.shape), pad_tensor.dtype, sub_values, quantization=pad_tensor.quantization
+        )
+        pad_sub = op.clone("_sub")
+        pad_sub.set_input_tensor(sub_pad_tensor, 1)
+        pad_sub.set_output_tensor(sub_out)
+        pad_sub.set_ifm_ofm_shapes()
+        pad_tensor.values[axis, :] = 0
+        op.set_input_tensor(sub_out, 0)
+        op.set_ifm_ofm_shapes()
+        return op
+
     input_tensors = [inp]
     if left_size != 0:
         shape = inp.shape.copy()
